@@ -114,7 +114,11 @@ func init() {
 				menu = append(menu, opT{op: c08Op{kind: "js", file: f}}, opT{op: c08Op{kind: "js", file: f, es6: true, msgs: true}}, opT{op: c08Op{kind: "js", file: f, viaGen: true}})
 			}
 			menu = append(menu, opT{kind: 1}, opT{kind: 2, expr: exprs[r.Intn(len(exprs))]})
-			run := func(o opT) string {
+			cold, err := newWorld(files, prog.B.Globals, datas, prog.IJ)
+			if err != nil {
+				return fw.Result{Verdict: fw.Skip}
+			}
+			runOn := func(w *c08World, o opT) string {
 				switch o.kind {
 				case 1:
 					_, err := compileRegistry(files2, prog2.B.Globals)
@@ -133,11 +137,13 @@ func init() {
 				out, err := w.exec(o.op)
 				return errClass(err) + ":" + out
 			}
-			// sequential golden results
+			// the concurrent phase runs on w, which nothing has touched since compilation (lazily built
+			// state is cold); the sequential results come from a second compilation of the same sources
+			run := func(o opT) string { return runOn(w, o) }
 			atomic.StoreInt64(&c09YieldEvery, 0)
 			golden := make([]string, len(menu))
 			for k, o := range menu {
-				golden[k] = run(o)
+				golden[k] = runOn(cold, o)
 			}
 			// the concurrent stanza
 			old := runtime.GOMAXPROCS(procs)
@@ -146,7 +152,7 @@ func init() {
 			var seq int64
 			events := make([][]c09Event, G)
 			type mism struct {
-				g, k     int
+				g, k      int
 				want, got string
 			}
 			var mu sync.Mutex
